@@ -2,8 +2,9 @@
 
 proof:   Props/C02.lean: matrix entries of branch_vectors = terminal currents of the documented circuit (ideal transformer with
          complex ratio, series impedance, shunt halves) for all parameters and voltages; per unit = SI scaling; the T-model pi
-         parameters of _wye_delta have exactly the T circuit's terminal currents (any leakage split); asymmetry guards and
-         trafo3w loading ratings regenerated from source.
+         parameters of _wye_delta have exactly the T circuit's terminal currents (any leakage split); the transformer's
+         short-circuit impedance generated from _calc_r_x_from_dataframe: base change of vk, r^2 + x^2 = (z / parallel)^2 with
+         the sign of x following vk, r / z = vkr / vk; asymmetry guards and trafo3w loading ratings regenerated from source.
 tie:     translator + correspondence: branch_vectors / _wye_delta on the implementation's ppc rows vs the model over Q[i].
 oracle:  harness/elements.py - an independent implementation of the documented models (line, 2W transformer pi / T with all tap
          changer types, impedance incl. asymmetric, shunt, ward, trafo3w loading) evaluated at the reported voltages vs every
